@@ -209,27 +209,37 @@ func (*SuffrageStateBuilder) prove(
 	proofs[index] = proof
 
 	if index == 0 {
-		if previous == nil && proof.State().Height() != base.GenesisHeight {
-			return errors.Errorf("previous state is required except genesis")
-		}
-
-		if err := proof.Prove(previous); err != nil {
+		if err := proveSuffrageProof(proof, previous); err != nil {
 			return err
 		}
 	}
 
 	if index > 0 && proofs[index-1] != nil {
-		if err := proof.Prove(proofs[index-1].State()); err != nil {
+		if err := proveSuffrageProof(proof, proofs[index-1].State()); err != nil {
 			return err
 		}
 	}
 
 	// revive:disable-next-line:optimize-operands-order
 	if index+1 < int64(len(proofs)) && proofs[index+1] != nil {
-		if err := proofs[index+1].Prove(proof.State()); err != nil {
+		if err := proveSuffrageProof(proofs[index+1], proof.State()); err != nil {
 			return err
 		}
 	}
 
 	return nil
+}
+
+// proveSuffrageProof rejects the proof from remote, which SuffrageProof.Prove()
+// can not handle without panic; not genesis proof without previous state and
+// proof with empty previous state hash.
+func proveSuffrageProof(proof base.SuffrageProof, previous base.State) error {
+	switch {
+	case previous == nil && proof.State().Height() != base.GenesisHeight:
+		return errors.Errorf("previous state is required except genesis")
+	case previous != nil && proof.State().Previous() == nil:
+		return errors.Errorf("empty previous state hash of proof")
+	}
+
+	return proof.Prove(previous)
 }
